@@ -7,6 +7,8 @@ mkdir -p bin evidence replays
 go test ./ref/ 
 go build -tags verif -o bin/vcheck ./cmd/vcheck
 go build -tags verif -race -o bin/vcheck.race ./cmd/vcheck
+# generators of every check produce unique case ids for both tiers
+bin/vcheck gencheck > /dev/null
 # the repository must build with and without the hook tag
 (cd /repo && go build ./... && go build -tags verif ./...)
 echo setup ok
